@@ -95,6 +95,7 @@ pub mod server_std {
         { unimplemented!() }
     }
 
+    #[derive(Debug)]
     pub struct TimeSignedFromSystemTimeError;
 
     /// src/rr/rdata/tsig.rs `impl TryFrom<SystemTime> for TimeSigned`: the seconds since
